@@ -161,6 +161,10 @@ class C07(Check):
         ).filter(lambda c: len(c["sql"]) <= 1200 and jinja_parses(c["sql"]))
         return with_limit(st.one_of(jin, jin, jin, jin, gens.pyfmt_case(), gens.placeholder_case()))
 
+    def budget_s(self, tier):
+        # safety net only (the case counts are the bound); generous because the box may be shared
+        return 420.0 if tier == "quick" else 1700.0
+
     def examples(self, tier):
         return 220 if tier == "quick" else 12000
 
